@@ -135,7 +135,7 @@ Proof.
                                | Some _ => []
                                | None => plan o (i_ver (snd (exec F o [] IReadIds (fst ci4) (snd ci4))))
                                               (i_ids (snd (exec F o [] IReadIds (fst ci4) (snd ci4)))) ms
-                               end) F)).
+                               end) F))).
     { simpl drive. unfold pstep. simpl p_inst. simpl p_todo. simpl p_faults. rewrite E4. reflexivity. }
     rewrite D1. set (ci5 := exec F o [] IReadIds (fst ci4) (snd ci4)).
     destruct (i_res (snd ci5)) eqn:E6.
